@@ -152,6 +152,11 @@ class AstVisitor:
         self.visit_default_func(node)
         node.inner.accept(self)
 
+    def visit_TestCaseClauseNode(self, node: mparser.TestCaseClauseNode) -> None:
+        self.visit_default_func(node)
+        node.condition.accept(self)
+        node.block.accept(self)
+
 class FullAstVisitor(AstVisitor):
     """Visit all nodes, including Symbol and Whitespaces"""
 
@@ -328,4 +333,12 @@ class FullAstVisitor(AstVisitor):
         node.lpar.accept(self)
         node.inner.accept(self)
         node.rpar.accept(self)
+        self.exit_node(node)
+
+    def visit_TestCaseClauseNode(self, node: mparser.TestCaseClauseNode) -> None:
+        self.enter_node(node)
+        node.testcase.accept(self)
+        node.condition.accept(self)
+        node.block.accept(self)
+        node.endtestcase.accept(self)
         self.exit_node(node)
